@@ -833,29 +833,42 @@ func (fr *Frame) builtinAppend(n *vnode, instr *ssa.Call, c *ssa.CallCommon) *Va
 	fits := Le(newLen, SCap(dst.T))
 	// result: in place if it fits, else a fresh array
 	fresh := x.newRef("app")
-	resArr := Ite(fits, SArr(dst.T), fresh)
-	resOff := Ite(fits, SOff(dst.T), IntLit(0))
+	// named (not ite terms): they occur in quantifier triggers, where z3 rejects ite
+	resArr := x.eng.FreshVar("apparr", SInt)
+	resOff := x.eng.FreshVar("appoff", SInt)
+	x.vc.Assume(Eq(resArr, Ite(fits, SArr(dst.T), fresh)))
+	x.vc.Assume(Eq(resOff, Ite(fits, SOff(dst.T), IntLit(0))))
 	ncap := x.eng.FreshVar("appcap", SInt)
 	x.vc.Assume(Implies(n.reach, Ge(ncap, newLen)))
 	resCap := Ite(fits, SCap(dst.T), ncap)
 	res := MkSlice(resArr, resOff, newLen, resCap)
 	row := x.eng.FreshVar(comp+"$row", cur.S.Elem)
 	oldDstRow := Select(cur, SArr(dst.T))
+	// logical-index formulation: triggers are element terms s[k] (index wrapped in "at" for non-byte elements)
+	k := Var("k?", SInt)
 	j := Var("j?", SInt)
-	k := Sub(j, resOff) // logical index in result
+	resElem := App("select", es, row, ElemIdx(resOff, k, es))
 	var srcElem *Term
 	if srcIsStr {
 		x.eng.DeclareUF("strAt", SBV(8), SStr, SInt)
 		srcElem = App("strAt", SBV(8), src.T, Sub(k, SLen(dst.T)))
 	} else {
-		srcElem = App("select", es, Select(cur, SArr(src.T)), Add(SOff(src.T), Sub(k, SLen(dst.T))))
+		srcElem = App("select", es, Select(cur, SArr(src.T)), ElemIdx(SOff(src.T), Sub(k, SLen(dst.T)), es))
 	}
 	inOld := And(Ge(k, IntLit(0)), Lt(k, SLen(dst.T)))
 	inNew := And(Ge(k, SLen(dst.T)), Lt(k, newLen))
-	x.vc.Assume(Implies(n.reach, Forall([]*Term{j}, And(
-		Implies(inOld, Eq(App("select", es, row, j), App("select", es, oldDstRow, Add(SOff(dst.T), k)))),
-		Implies(inNew, Eq(App("select", es, row, j), srcElem)),
-		Implies(And(fits, Not(inOld), Not(inNew)), Eq(App("select", es, row, j), App("select", es, oldDstRow, j)))))))
+	q1 := Forall([]*Term{k}, And(
+		Implies(inOld, Eq(resElem, App("select", es, oldDstRow, ElemIdx(SOff(dst.T), k, es)))),
+		Implies(inNew, Eq(resElem, srcElem))))
+	q1.Pats = [][]*Term{{resElem}}
+	// in place: everything outside [off, off+newLen) of the row is untouched
+	lo := Add(resOff, IntLit(0))
+	q2 := Forall([]*Term{j}, Implies(And(fits, Or(Lt(j, lo), Ge(j, Add(resOff, newLen)))), Eq(App("select", es, row, j), App("select", es, oldDstRow, j))))
+	q2.Pats = [][]*Term{{App("select", es, row, j)}}
+	x.vc.Assume(Implies(n.reach, And(q1, q2)))
+	if x.opaque["bitAt"] && es.K == KBV && es.W == 8 {
+		bail("append to a byte slice in opaque bit mode is not modelled in %s", fr.fn)
+	}
 	if x.frameOK != nil {
 		// writing in place into spare capacity of an existing array is a store
 		g := x.frameOK(&Place{Comp: comp, Elem: es, Ref: SArr(dst.T), Idx: SOff(dst.T)}, n.heap)
